@@ -21,7 +21,19 @@ import (
 	"github.com/B1NARY-GR0UP/originium/types"
 )
 
+// Merge sorted lists, tombstones are dropped from the result
 func Merge(lists ...[]types.Entry) []types.Entry {
+	return merge(false, lists...)
+}
+
+// MergeVersions merges like Merge but keeps tombstones.
+// A deletion marker is a version of its key, compaction has to carry it along,
+// otherwise older values of the key held by other tables become visible again
+func MergeVersions(lists ...[]types.Entry) []types.Entry {
+	return merge(true, lists...)
+}
+
+func merge(keepTombstones bool, lists ...[]types.Entry) []types.Entry {
 	h := &Heap{}
 	heap.Init(h)
 
@@ -55,7 +67,7 @@ func Merge(lists ...[]types.Entry) []types.Entry {
 	var merged []types.Entry
 
 	for _, entry := range latest {
-		if entry.Tombstone {
+		if entry.Tombstone && !keepTombstones {
 			continue
 		}
 		merged = append(merged, entry)
